@@ -231,6 +231,61 @@ class SymKit(KitBase):
     def setitem(self, v, i, value):
         self.I.setitem(wrap(v), wrap(i), wrap(value))
 
+    # ---- loop contracts: the three Hoare obligations (init / step / exit) are driven by the contract text
+    def run_prefix(self, fn, *args, ordinal=0, **kwargs):
+        fr, loop = self.I.run_prefix(fn, [wrap(a) for a in args], {k: wrap(v) for k, v in kwargs.items()}, ordinal)
+        return (fr, loop)
+
+    def loop_frame(self, fn, local_vars, ordinal=0):
+        return self.I.loop_frame(fn, ordinal, {k: wrap(v) for k, v in local_vars.items()})
+
+    def loop_test(self, h):
+        return self.I.loop_test(*h)
+
+    def loop_body(self, h, element=None):
+        from .interp import _MISSING
+        return self.I.loop_body_once(h[0], h[1], wrap(element) if element is not None else _MISSING)
+
+    def run_suffix(self, h):
+        return unwrap(self.I.run_suffix(*h))
+
+    def local(self, h, name):
+        return unwrap(h[0].locals[name])
+
+    def yielded(self, h):
+        return [unwrap(v) for v in h[0].yields.items]
+
+    def seq(self, name, length, kind="int"):
+        """Symbolic tuple of symbolic length: element i is the uninterpreted name(i)."""
+        f = z3.Function(name, z3.IntSort(), z3.IntSort())
+        self.inputs[name] = ("seq", length)
+        return SSeq(wrap(length), lambda i: SV(f(i.t if isinstance(i, SV) else z3.IntVal(i))), "tuple")
+
+    def seq_slice(self, s, start):
+        """s[start:] for a symbolic sequence (contract-level helper)."""
+        from .ndarray import as_dim
+        st = wrap(start)
+        stt = st.t if isinstance(st, SV) else z3.IntVal(st)
+        ln = (s.length.t if isinstance(s.length, SV) else z3.IntVal(s.length)) - stt
+        return SSeq(as_dim(ln), lambda i: s.getter(SV(z3.simplify(stt + (i.t if isinstance(i, SV) else z3.IntVal(i))))), s.kind)
+
+    def seq_at(self, s, i):
+        i = wrap(i)
+        return unwrap(s.getter(i if isinstance(i, SV) else SV(z3.IntVal(i))))
+
+    def seq_len(self, s):
+        return unwrap(s.length)
+
+    def array_view(self, arr, row0, col0):
+        """arr[row0:, col0:] as a view (contract-level helper)."""
+        from .values import LibObj
+        return self.lib.numpy.basic_index_keep(self.I, arr, [LibObj("slice", start=wrap(row0), stop=None, step=None),
+                                                             LibObj("slice", start=wrap(col0), stop=None, step=None)], None)
+
+    def bool_cell(self, arr, *idx):
+        e = arr.get(*[(wrap(i).t if isinstance(wrap(i), SV) else z3.IntVal(i)) for i in idx])
+        return self.I.sym_bool(e)
+
     def callable(self, fn):
         """A contract-level function passed into the analysed code as a callback."""
         return LibFn(lambda I2, a, k, n: wrap(fn(*[unwrap(x) for x in a], **{kk: unwrap(v) for kk, v in k.items()})), "contract callback")
@@ -594,6 +649,11 @@ class ConcKit(KitBase):
 
     def callable(self, fn):
         return fn
+
+    def run_prefix(self, *a, **k):
+        raise Skip()       # loop contracts are piecewise executions: no native counterpart (whole function is replayed by bounded checks)
+
+    loop_frame = loop_test = loop_body = run_suffix = local = yielded = seq = seq_slice = seq_at = seq_len = array_view = bool_cell = run_prefix
 
     def scalar(self, v):
         import numpy as np
